@@ -262,24 +262,24 @@ def _weighted(case, fit_name, nonneg):
     if not np.all(np.isfinite(theta)):
         return f'theta is not finite: {_fmt(theta)}'
     nrm = float(np.sqrt(np.sum(theta ** 2)))
-    if nrm == 0:
-        return (f'{fit_name} returned the all-zero weight vector (its prediction has no similarity with anything) although '
-                f'non-zero weights with a positive score exist')
-    if abs(nrm - 1) > 1e-9:
+    zero = nrm == 0     # "unit norm unless zero": the zero prediction has similarity 0 with everything (convention of the
+    #                     library for vectors of length 0); it is optimal iff no admissible weights reach a positive score
+    if not zero and abs(nrm - 1) > 1e-9:
         return f'normalised fit has norm {nrm!r}, expected 1'
     if theta_raw is not None:
         nr = float(np.sqrt(np.sum(theta_raw ** 2)))
-        if theta_raw.shape != (k,) or not np.isfinite(nr) or nr == 0:
-            return f'normalize=False returned {_fmt(theta_raw)}'
-        cosang = float(theta @ theta_raw) / nr
-        if cosang < 1 - 1e-9:
-            return (f'normalised fit {_fmt(theta)} is not a positive multiple of the raw fit {_fmt(theta_raw)} '
-                    f'(cosine of the angle {cosang!r})')
+        if theta_raw.shape != (k,) or not np.isfinite(nr) or (nr == 0) != zero:
+            return f'normalize=False returned {_fmt(theta_raw)}, normalize=True {_fmt(theta)}'
+        if not zero:
+            cosang = float(theta @ theta_raw) / nr
+            if cosang < 1 - 1e-9:
+                return (f'normalised fit {_fmt(theta)} is not a positive multiple of the raw fit {_fmt(theta_raw)} '
+                        f'(cosine of the angle {cosang!r})')
     if nonneg and np.any(theta < 0):
         return f'non-negative fitter returned a negative weight: {_fmt(theta)}'
     crit = _Crit(case['method'], pb['Y'], pb['V'])
     X = pb['X']
-    s_fit = crit.score(theta @ X)
+    s_fit = 0.0 if zero else crit.score(theta @ X)
     if not np.isfinite(s_fit):
         return f'score of the fitted weights {_fmt(theta)} is {s_fit}'
     rs = np.random.RandomState(case['seed'] + 7919)
@@ -313,10 +313,13 @@ def _weighted(case, fit_name, nonneg):
             best = (s, what, c)
     if best is not None and best[0] > s_fit + TOL:
         c = best[2] / np.sqrt(np.sum(best[2] ** 2))
+        if zero:
+            return (f'{fit_name}({case["method"]}) returned the all-zero weight vector (similarity 0) although the '
+                    f'{"non-negative " if nonneg else ""}weights {_fmt(c)} ({best[1]}) reach mean similarity {best[0]:.9f}')
         return (f'{fit_name}({case["method"]}) weights {_fmt(theta)} reach mean similarity {s_fit:.9f} but the '
                 f'{"non-negative " if nonneg else ""}weights {_fmt(c)} ({best[1]}) reach {best[0]:.9f} '
                 f'(excess {best[0] - s_fit:.3e} > {TOL})')
-    if fit_name == 'fit_regress_nn':
+    if fit_name == 'fit_regress_nn' and not zero:
         g = crit.gradient(X, theta)
         gtol = 1e-4 * max(1.0, float(np.max(np.abs(g))))
         on = theta > 0
@@ -419,6 +422,22 @@ def orc_interpolate(case):
     return None
 
 
+def _interp_optimum_kind(case):
+    """where (by the spec) the best adjacent mixture of the chain lies: at a basis RDM or inside a segment"""
+    pb = _problem(case, interpolate=True)
+    crit = _Crit(case['method'], pb['Y'], pb['V'])
+    k = case['k']
+    best = (-np.inf, None)
+    for i in range(k - 1):
+        for w in np.linspace(0, 1, 41):
+            c = np.zeros(k)
+            c[i], c[i + 1] = w, 1 - w
+            s = crit.score(c @ pb['X'])
+            if s > best[0]:
+                best = (s, w)
+    return 'optimum-at-basis-rdm' if best[1] in (0.0, 1.0) else 'optimum-inside-segment'
+
+
 # =====================================================================================================
 # restriction to the selected conditions, with multiplicity
 # =====================================================================================================
@@ -454,7 +473,8 @@ def orc_restriction(case):
     kw3 = {a: v for a, v in kw.items() if a not in ('pattern_idx', 'pattern_descriptor')}
     m3 = cls('m', _rdms(pb['sel_basis_vecs'], [pb['labels'][s] for s in S]))
     th3 = np.asarray(_call_fit(fit_name, m3, data, kw3, 'direct', seed), dtype=float)
-    if not close(th3, th1, 1e-9):
+    # the BFGS-based fitters amplify last-bit differences of the two evaluation orders; closed forms must agree to 1e-9
+    if not close(th3, th1, 1e-5 if fit_name.startswith('fit_optimize') else 1e-9):
         return (f'{fit_name}: fit with pattern_idx {pb["values"]} is {_fmt(th1)} but the fit of the model restricted to these '
                 f'conditions (with their multiplicity) is {_fmt(th3)}')
     # (3) the order in which the conditions are named does not matter
@@ -748,7 +768,7 @@ def tier_c(run, thorough):
                         case = dict(seed=100 * seed + 11 * si + k, k=k, n_all=n_all, pidx=pidx, desc=('index', 'cond')[si % 2],
                                     kind=('random', 'mix')[(k + si) % 2], method=method, n_train=(1, 3)[(si + k) % 2],
                                     sigma=sigma, via=('direct', 'model.fit')[(si + k + seed) % 2])
-                        bd.check(orc_interpolate, case, _sigma_class(case) + ',' + case['kind'], function='fit_interpolate')
+                        bd.check(orc_interpolate, case, _interp_optimum_kind(case), function='fit_interpolate')
             for k in ((3, 4, 5) if thorough else (3, 4)):
                 for seg in range(k - 1):
                     for decoy in range(k):
@@ -758,7 +778,7 @@ def tier_c(run, thorough):
                             case = dict(seed=300 + 10 * seed + si, k=k, n_all=6, pidx=pidx, desc='index', kind='decoy', seg=seg,
                                         decoy=decoy, method=method, n_train=3, sigma='none',
                                         via=('direct', 'model.fit')[(seg + decoy) % 2])
-                            bd.check(orc_interpolate, case, 'sigma_k-none,decoy', function='fit_interpolate')
+                            bd.check(orc_interpolate, case, _interp_optimum_kind(case), function='fit_interpolate')
     bd.done()
     bds.append(bd)
     # ---- restriction to the selected conditions ---------------------------------------------------
